@@ -38,8 +38,8 @@ def run(ctx, ss):
     ctx.guard("C09.4", c09_4, ss)
     ctx.guard("C09.5", c09_5, ss)
     ctx.guard("C09.6", c09_6, ss)
-    from .shared import memo_discipline
-    ctx.guard("C09.6", memo_discipline, ss, "C09.6", [f"{DEC}:DecFileParser.build_decay_chains"], "a decay chain")
+    from .shared import reading_path
+    ctx.guard("C09.6", reading_path, ss, "C09.6", ["DecFileParser.build_decay_chains"], "a decay chain")
 
 
 def _result_builder(ff, flow):
